@@ -11,7 +11,7 @@
     premises about the two Thrift parsers are explicit hypotheses of the statements below. *)
 From Coq Require Import NArith ZArith List.
 From Carquet Require Import Base.Res Gen.Enums_gen Gen.Consts_gen Reader.FooterModel Reader.FooterProofs
-  Reader.PageBoundsModel Reader.RobustProofs.
+  Reader.PageBoundsModel Reader.RobustProofs Reader.RobustInst.
 Import ListNotations.
 Local Open Scope Z_scope.
 
@@ -102,6 +102,33 @@ Theorem error_has_code_and_nul_message : forall code text,
   last (e_message (error_set code text)) 1%N = 0%N /\ In 0%N (e_message (error_set code text)).
 Proof. exact RobustProofs.error_has_code_and_nul_message. Qed.
 Print Assumptions error_has_code_and_nul_message.
+
+(** The same three theorems with the parsers INSTANTIATED - no hypothesis about a parser is left:
+    [footer_parse_carquet] = the Thrift engine's model of parquet_parse_file_metadata (Thrift/ParquetMetaModel.v)
+    followed by the schema engine's build_schema (Schema/SchemaModel.v); [parse_hdr_carquet] = the Thrift
+    engine's model of parquet_parse_page_header.  The premises are proved in Reader/RobustInst.v from the
+    Thrift owner's theorems (never faults, consumed <= input, parse_struct_good) plus lemmas proved there:
+    error statuses are never CARQUET_OK, a successful parse consumes >= 1 byte, the VALIDATE_COUNT limits
+    hold of the parsed lists; the leaf map bound is Schema.build_schema_total. *)
+Theorem open_safe_carquet : forall mode f,
+  (exists c, open file_meta footer_parse_carquet mode f = Err c /\ c <> 0) \/
+  (exists m, open file_meta footer_parse_carquet mode f = Ok m /\ within_limits m).
+Proof. exact RobustInst.open_safe_carquet. Qed.
+Print Assumptions open_safe_carquet.
+
+Theorem page_load_in_bounds_carquet : forall p k f off,
+  (exists c, load parse_hdr_carquet current_pchecks p k f off = Err c) \/
+  (exists l, load parse_hdr_carquet current_pchecks p k f off = Ok l /\
+     Forall (in_file (Z.of_nat (length f))) (ld_reads l) /\ in_file (Z.of_nat (length f)) (ld_body l) /\
+     0 <= ld_hs l /\ r_off (ld_body l) = off + ld_hs l /\ r_len (ld_body l) = ph_csize (ld_header l) /\
+     0 <= off < Z.of_nat (length f)).
+Proof. exact RobustInst.page_load_in_bounds_carquet. Qed.
+Print Assumptions page_load_in_bounds_carquet.
+
+Theorem read_terminates_linear_carquet : forall p f off,
+  exists k, walk parse_hdr_carquet current_pchecks (length f + 1) p f off 0 = Ok k /\ (k <= length f + 1)%nat.
+Proof. exact RobustInst.read_terminates_linear_carquet. Qed.
+Print Assumptions read_terminates_linear_carquet.
 
 (** The pinned tree violated the bounds theorems (DESIGN F21-F24; replays in corpus/C04). *)
 Theorem page_load_in_bounds_refuted_on_pinned_tree :
